@@ -55,7 +55,7 @@ def frames(case):
     return base, feed
 
 
-def run_case(case, client_obj=None, extra_kwargs=None, want_client=False, omit_model_parameters=False, base_frame=None, feed_frame=None, preprocessed_none=False):
+def run_case(case, client_obj=None, extra_kwargs=None, want_client=False, omit_model_parameters=False, base_frame=None, feed_frame=None, preprocessed_none=False, config_none=False):
     """returns dict: {'ok': bool, 'tables': {name: DataFrame}, 'exc': (type name, msg)}
 
     base_frame: pass this very DataFrame object as preprocessed_data (a caller that keeps one baseline frame across polls)
@@ -89,7 +89,7 @@ def run_case(case, client_obj=None, extra_kwargs=None, want_client=False, omit_m
             prediction_intervals=list(p["prediction_intervals"]),
             percent_reporting_threshold=p["percent_reporting_threshold"],
             geographic_unit_type=case["unit_type"],
-            raw_config=gen.make_config(case),
+            raw_config=(None if config_none else gen.make_config(case)),
             preprocessed_data=(None if preprocessed_none else (base_frame if base_frame is not None else base.copy())),
             **({} if omit_model_parameters else {"model_parameters": dict(p.get("model_parameters", {}))}),
             **kwargs,
